@@ -1244,4 +1244,159 @@ theorem settleCommitments_safe (s : State) (ins outs : List (Addr × Coins)) (rs
 example : ∀ p ∈ [(("B" : Addr), ([("apple", 5), ("stake", 3)] : Coins))], (Coins.denoms p.2).Nodup := by
   intro p hp; simp at hp; subst hp; simp [Coins.denoms]
 
+/-! ## 9. A transaction's fee payment (ante handler, fee grants, the sweep of the rest)
+
+`feeTx` (`PvModel/Lock.lean`) is one transaction as `baseapp.runTx` runs it: the ante handler
+deducts the base fee from the payer — the signer, or the granter of a fee grant — and its writes
+stay when it succeeds; then the messages run and the fee handler sweeps the rest of the fee from
+the same payer, all or nothing.  Every outcome is a history of bank primitives in the
+transaction's own context, so: `hold ≤ balance` afterwards whatever happened, **no fee payment —
+own or through a grant — can use funds on hold**, and the base fee is accepted exactly up to
+`balance − hold − unvested` of the payer. -/
+
+private theorem run_append (s : State) (a b : List Op) : run s (a ++ b) = run (run s a) b := by
+  simp [run, List.foldl_append]
+
+/-- The state after a transaction is the state before it, or the history of the ante handler's
+primitives, or the history of all of its primitives. -/
+theorem runTx_is_history (s : State) (ante msgs : List Op) :
+    (runTx s ante msgs).state s = s ∨ (runTx s ante msgs).state s = run s ante ∨
+      (runTx s ante msgs).state s = run s (ante ++ msgs) := by
+  unfold runTx
+  split
+  · exact Or.inl rfl
+  · rename_i s₁ h₁
+    split
+    · exact Or.inr (Or.inl (applyAll_eq_run ante s s₁ h₁).symm)
+    · rename_i s₂ h₂
+      refine Or.inr (Or.inr ?_)
+      simp only [TxOutcome.state]
+      rw [run_append, applyAll_eq_run ante s s₁ h₁, applyAll_eq_run msgs s₁ s₂ h₂]
+
+/-- The three outcomes: refused by the ante handler — nothing changes; a message or the fee
+handler failed — exactly the ante handler's writes stay (the base fee is paid); otherwise all of it. -/
+theorem runTx_outcomes (s : State) (ante msgs : List Op) :
+    (∃ e, applyAll s ante = .error e ∧ (runTx s ante msgs).state s = s) ∨
+    (∃ s₁ e, applyAll s ante = .ok s₁ ∧ applyAll s₁ msgs = .error e ∧ (runTx s ante msgs).state s = s₁) ∨
+    (∃ s₁ s₂, applyAll s ante = .ok s₁ ∧ applyAll s₁ msgs = .ok s₂ ∧ (runTx s ante msgs).state s = s₂) := by
+  unfold runTx
+  split
+  · rename_i e h; exact Or.inl ⟨e, h, rfl⟩
+  · rename_i s₁ h₁
+    split
+    · rename_i e h₂; exact Or.inr (Or.inl ⟨s₁, e, h₁, h₂, rfl⟩)
+    · rename_i s₂ h₂; exact Or.inr (Or.inr ⟨s₁, s₂, h₁, h₂, rfl⟩)
+
+/-- Any transaction of well-formed primitives keeps `hold ≤ balance`, whatever its outcome. -/
+theorem runTx_holdLeBal (s : State) (ante msgs : List Op) (hwa : ∀ op ∈ ante, WF op)
+    (hwm : ∀ op ∈ msgs, WF op) (h : HoldLeBal s) : HoldLeBal ((runTx s ante msgs).state s) := by
+  rcases runTx_outcomes s ante msgs with ⟨_, _, hs⟩ | ⟨s₁, _, h₁, _, hs⟩ | ⟨s₁, s₂, h₁, h₂, hs⟩
+  · rw [hs]; exact h
+  · rw [hs, ← applyAll_eq_run ante s s₁ h₁]; exact run_holdLeBal ante s hwa h
+  · have i₁ : HoldLeBal s₁ := by rw [← applyAll_eq_run ante s s₁ h₁]; exact run_holdLeBal ante s hwa h
+    rw [hs, ← applyAll_eq_run msgs s₁ s₂ h₂]; exact run_holdLeBal msgs s₁ hwm i₁
+
+/-- … and what `HoldAccountBalancesInvariant` checks. -/
+theorem runTx_good (s : State) (ante msgs : List Op)
+    (ha : ∀ op ∈ ante, PlainCtx op ∧ WF op ∧ NoSetTime op) (hm : ∀ op ∈ msgs, PlainCtx op ∧ WF op ∧ NoSetTime op)
+    (g : Good s) : Good ((runTx s ante msgs).state s) := by
+  rcases runTx_outcomes s ante msgs with ⟨_, _, hs⟩ | ⟨s₁, _, h₁, _, hs⟩ | ⟨s₁, s₂, h₁, h₂, hs⟩
+  · rw [hs]; exact g
+  · have := message_good ante s ha g
+    simp only [stepMsg, h₁] at this
+    rw [hs]; exact this
+  · have g₁ := message_good ante s ha g
+    simp only [stepMsg, h₁] at g₁
+    have g₂ := message_good msgs s₁ hm g₁
+    simp only [stepMsg, h₂] at g₂
+    rw [hs]; exact g₂
+
+/-- A fee deduction is one bank send in the transaction's own context (no bypass of any kind): a
+production-context, well-formed primitive that releases no hold. -/
+theorem deductFeeOps_ok (payer fc : Addr) (fee : Coins) :
+    (∀ op ∈ deductFeeOps payer fc fee, PlainCtx op ∧ WF op ∧ NoSetTime op) ∧
+      ∀ a, NoReleaseFor a (deductFeeOps payer fc fee) := by
+  unfold deductFeeOps
+  split
+  · exact ⟨fun op h => by simp at h, fun a op h => by simp at h⟩
+  · refine ⟨fun op h => ?_, fun a op h cs => ?_⟩
+    · simp only [List.mem_singleton] at h; subst h; simp [PlainCtx, WF, NoSetTime, Op.ctx]
+    · simp only [List.mem_singleton] at h; subst h; simp
+
+/-- **Paying a fee never uses funds on hold.**  For any payer (the signer, or a granter whose
+allowance the signer uses), any base fee, any rest of the fee and any messages `body` of
+well-formed primitives: whatever the outcome of the transaction, every account `a` for which the
+messages release nothing — the fee payer in particular — keeps at least the holds it had, and its
+balance still covers them. -/
+theorem feeTx_holds_stay_covered (s : State) (payer fc : Addr) (baseFee rest : Coins) (body : List Op)
+    (a : Addr) (hinv : HoldLeBal s) (hb : ∀ op ∈ body, WF op) (hnr : NoReleaseFor a body) (d : Denom) :
+    s.hold a d ≤ ((feeTx s payer fc baseFee rest body).state s).hold a d ∧
+      ((feeTx s payer fc baseFee rest body).state s).hold a d ≤ ((feeTx s payer fc baseFee rest body).state s).bal a d := by
+  have hA := deductFeeOps_ok payer fc baseFee
+  have hR := deductFeeOps_ok payer fc rest
+  have wfA : ∀ op ∈ deductFeeOps payer fc baseFee, WF op := fun o ho => (hA.1 o ho).2.1
+  have wfM : ∀ op ∈ body ++ deductFeeOps payer fc rest, WF op := by
+    intro o ho
+    rcases List.mem_append.mp ho with h | h
+    · exact hb o h
+    · exact (hR.1 o h).2.1
+  have nrM : NoReleaseFor a (body ++ deductFeeOps payer fc rest) := by
+    intro o ho cs
+    rcases List.mem_append.mp ho with h | h
+    · exact hnr o h cs
+    · exact hR.2 a o h cs
+  unfold feeTx
+  rcases runTx_outcomes s (deductFeeOps payer fc baseFee) (body ++ deductFeeOps payer fc rest) with
+    ⟨_, _, hs⟩ | ⟨s₁, _, h₁, _, hs⟩ | ⟨s₁, s₂, h₁, h₂, hs⟩
+  · rw [hs]; exact ⟨Int.le_refl _, hinv a d⟩
+  · rw [hs]; exact message_unreleased_holds_stay_covered _ s s₁ a wfA hinv (hA.2 a) h₁ d
+  · have c₁ := message_unreleased_holds_stay_covered _ s s₁ a wfA hinv (hA.2 a) h₁ d
+    have i₁ : HoldLeBal s₁ := by rw [← applyAll_eq_run _ s s₁ h₁]; exact run_holdLeBal _ s wfA hinv
+    have c₂ := message_unreleased_holds_stay_covered _ s₁ s₂ a wfM i₁ nrM h₂ d
+    rw [hs]; exact ⟨Int.le_trans c₁.1 c₂.1, c₂.2⟩
+
+/-- `hold ≤ balance` after a fee-paying transaction, whatever its outcome. -/
+theorem feeTx_holdLeBal (s : State) (payer fc : Addr) (baseFee rest : Coins) (body : List Op)
+    (hinv : HoldLeBal s) (hb : ∀ op ∈ body, WF op) :
+    HoldLeBal ((feeTx s payer fc baseFee rest body).state s) := by
+  unfold feeTx
+  refine runTx_holdLeBal s _ _ (fun o ho => ((deductFeeOps_ok payer fc baseFee).1 o ho).2.1) ?_ hinv
+  intro o ho
+  rcases List.mem_append.mp ho with h | h
+  · exact hb o h
+  · exact ((deductFeeOps_ok payer fc rest).1 o h).2.1
+
+/-- **The boundary of the base fee**: the ante handler accepts a (non-zero, valid) base fee **iff**
+every coin of it is at most `balance − hold − unvested` of the payer — exactly at the boundary it
+passes, one above it the transaction is refused and nothing changes. -/
+theorem baseFee_accepted_iff (s : State) (payer fc : Addr) (baseFee rest : Coins) (body : List Op)
+    (hv : isValid baseFee = true) (hnd : (Coins.denoms baseFee).Nodup) (hnz : isZero baseFee = false) :
+    (∀ e, feeTx s payer fc baseFee rest body ≠ .anteFailed e) ↔
+      ∀ p ∈ baseFee, p.2 ≤ s.bal payer p.1 - pos (s.hold payer p.1) - pos (unvested s payer p.1) := by
+  rw [← sendCoins_ok_iff s payer fc fc baseFee hv hnd]
+  unfold feeTx runTx deductFeeOps
+  simp only [hnz, Bool.false_eq_true, if_false, applyAll, apply]
+  constructor
+  · intro h
+    cases hs : sendCoins s {} payer fc baseFee (some fc) with
+    | ok s₁ => exact ⟨s₁, rfl⟩
+    | error e => exact absurd (by simp [hs]) (h e)
+  · rintro ⟨s₁, hs⟩ e
+    simp only [hs]
+    split <;> simp
+
+/-- non-vacuity, and the boundary through a fee grant: the granter G has 100stake, 80 of them on
+hold; a grantee's transaction with a base fee of 20stake is accepted (and G keeps its 80 on hold,
+covered), one with 21stake is refused by the ante handler and changes nothing; when the message
+fails the base fee stays paid. -/
+example :
+    let s : State := { ledger := [⟨"G", "stake", 100⟩, ⟨"P", "apple", 5⟩], holds := [⟨"G", "stake", 80⟩],
+                       kinds := [("G", .base), ("P", .base), ("FEE", .module)] }
+    (∃ s', feeTx s "G" "FEE" [("stake", 20)] [] [.send {} "P" "G" [("apple", 5)] (some "G")] = .done s' ∧
+      s'.bal "G" "stake" = 80 ∧ s'.hold "G" "stake" = 80 ∧ s'.bal "FEE" "stake" = 20) ∧
+    (∃ e, feeTx s "G" "FEE" [("stake", 21)] [] [.send {} "P" "G" [("apple", 5)] (some "G")] = .anteFailed e) ∧
+    (∃ s₁ e, feeTx s "G" "FEE" [("stake", 20)] [] [.send {} "P" "G" [("apple", 6)] (some "G")] = .msgsFailed s₁ e ∧
+      s₁.bal "G" "stake" = 80 ∧ s₁.bal "P" "apple" = 5) := by
+  refine ⟨⟨_, rfl, by decide, by decide, by decide⟩, ⟨_, rfl⟩, ⟨_, _, rfl, by decide, by decide⟩⟩
+
 end PvProofs.C03
